@@ -67,7 +67,7 @@ ASSUMPTIONS = [
     "the design's bound W=5/7 over the full flag set is infeasible (1.1e6 programs at modifier-weight 5): the bounds reported are what is enumerated completely",
 ]
 BOUNDS = {
-    "quick": {"W1_modifier_weight": 3, "W2_nodes_all_flags": 2, "W2_root_body": "one statement", "WT_wrapped_nodes": 2, "WT_flags": "<=1 per def", "WP_pairs": 2, "WF_error_page_all_points": 2, "WB1_base_kind_all": 2, "WB2_base_kind_try_or_include": 3, "WK_exception_families": 2, "for_iterations": 2},
+    "quick": {"prologue": "exception while a section is entered (strict_undefined name, raising default of a nested def, missing namespace file) x 5 section flavours x {top-level, nested} x 3 call forms x 3 handlers; include set-up failures x 3 placements x 4 handlers; each twice", "W1_modifier_weight": 3, "W2_nodes_all_flags": 2, "W2_root_body": "one statement", "WT_wrapped_nodes": 2, "WT_flags": "<=1 per def", "WP_pairs": 2, "WF_error_page_all_points": 2, "WB1_base_kind_all": 2, "WB2_base_kind_try_or_include": 3, "WK_exception_families": 2, "for_iterations": 2},
     "thorough": {"W1_modifier_weight": 4, "W2_nodes_all_flags": 2, "W3_nodes_single_flags": 3, "WT_wrapped_nodes": 2, "WT_flags": "every subset", "WP_pairs": 3, "WF_error_page_all_points": 3, "WB1_base_kind_all": 3, "WB2_base_kind_try_or_include": 4, "WK_exception_families": 3, "for_iterations": 2},
 }
 LEVEL_TEXT = (
@@ -540,14 +540,41 @@ def plan(tier, seed):
         ns = max(1, -(-n // CHUNK[tier]))
         for sh in range(ns):
             jobs.append({"tier": tier, "seed": seed, "fam": fam, "w": w, "shard": sh, "nshards": ns})
+    jobs.append({"tier": tier, "seed": seed, "fam": "prologue", "w": 0, "shard": 0, "nshards": 1})
     # heavier groups first; the seed rotates the order
     jobs.sort(key=lambda j: (-j["w"], j["fam"], j["shard"]))
     k = seed % max(1, len(jobs))
     return jobs[k:] + jobs[:k]
 
 
+def run_prologue(st):
+    from mc import c13_prologue as P
+
+    n = 0
+    for c in P.cases():
+        r = P.run(c)
+        if r == "skip":
+            continue
+        n += 1
+        st.states += 1
+        st.traces += 1
+        st.evaluations += 2
+        st.transitions += 2
+        st.nontrivial += 1
+        st.oracles["prologue"] += 1
+        st.outcomes[("prologue", c["kind"], c["handler"], "ok" if r is None else "bad")] += 1
+        if r is not None:
+            st.violation(r[0], c, r[1], expected=r[2], observed=r[3])
+        if n % 61 == 1:
+            st.sample({"family": "prologue", "case": c, "files": P.build(c)[0]})
+    st.extra["prologue_cases"] = n
+
+
 def run_job(job):
     st = Stats()
+    if job.get("fam") == "prologue":
+        run_prologue(st)
+        return st
     t0 = time.process_time()
     w0 = time.time()
     try:
@@ -575,6 +602,11 @@ def _tuple(x):
 
 def replay(case):
     core.bind_repo()
+    if case.get("fam") == "prologue":
+        from mc import c13_prologue as P
+
+        r = P.run(case)
+        return (True, "holds") if r in (None, "skip") else (False, "reproduced: %r" % (r,))
     env.register()
     skel = _tuple(case["skel"])
     prog = ir.finalise(skel, letters(case.get("seed", 0)))
